@@ -5,6 +5,7 @@ void run_regs(const char *input);
 void run_heap(const char *input);
 void run_lexer(const char *input);
 void run_match(const char *input);
+void run_parse(const char *input);
 
 void dom_replay(const char *line) {
     char *copy = strdup(line), *arrow;
@@ -16,6 +17,7 @@ void dom_replay(const char *line) {
         case 'H': run_heap(copy); break;
         case 'L': run_lexer(copy); break;
         case 'M': run_match(copy); break;
+        case 'P': run_parse(copy); break;
         default: break;
     }
     free(copy);
